@@ -946,6 +946,11 @@ line = (
     LineEnd().suppress()
 ).set_name('line')
 
+# keep tab characters as they are (by default pyparsing expands them to
+# blanks before parsing, which would change string literals, DATA items
+# and the positions of error messages)
+line.parse_with_tabs()
+
 
 # --- Parse actions ---
 
